@@ -231,3 +231,131 @@ func init() {
 		}
 	})
 }
+
+// ---- mostly valid CLUSTER NODES replies with one hostile token, through the real refresh loop
+
+type cnCase struct {
+	Edits []cnEdit `json:"edits"`
+}
+
+type cnEdit struct {
+	Line  int    `json:"line"`
+	Field int    `json:"field"` // index of the field to replace (>= 8: a slot token; 8 + k appends when beyond)
+	Value string `json:"value"`
+}
+
+func checkClusterNodesSocket(c cnCase) *verdict {
+	w, err := sim.NewWorld(2, 1)
+	if err != nil {
+		return nil
+	}
+	defer w.Close()
+	w.AssignEven(w.Masters())
+	// the genuine rendering, taken from the node itself
+	direct, err := sim.Dial(w.Nodes[0].Addr)
+	if err != nil {
+		return nil
+	}
+	r, err := direct.Do(5*time.Second, "CLUSTER", "NODES")
+	direct.Close()
+	if err != nil || r.K != ref.Bulk {
+		return nil
+	}
+	lines := strings.Split(strings.TrimRight(string(r.S), "\n"), "\n")
+	for _, e := range c.Edits {
+		if len(lines) == 0 {
+			break
+		}
+		li := e.Line % len(lines)
+		f := strings.Fields(lines[li])
+		if e.Field < len(f) {
+			f[e.Field] = e.Value
+		} else {
+			f = append(f, e.Value)
+		}
+		lines[li] = strings.Join(f, " ")
+	}
+	text := strings.Join(lines, "\n") + "\n"
+	px, err := sim.StartProxy(sim.ProxyOpts{Seeds: w.AllAddrs(), ConnectTimeout: 100 * time.Millisecond})
+	if err != nil {
+		return &verdict{"proxy-start", err.Error()}
+	}
+	defer px.Stop(20 * time.Second)
+	px.WaitTableLoaded(1, 10*time.Second)
+	key1 := w.KeyFor(1, "h1:")
+	w.Lock()
+	w.Hostile = func(n *sim.Node, args [][]byte) []byte {
+		if strings.EqualFold(string(args[0]), "cluster") {
+			return ref.Enc(ref.BulkS(text)) // every node serves the edited text
+		}
+		return nil
+	}
+	w.Unlock()
+	time.Sleep(180 * time.Millisecond) // three periodic refreshes (50 ms)
+	w.Lock()
+	w.Hostile = nil
+	w.Unlock()
+	cl, err := sim.Dial(px.Addr)
+	if err != nil {
+		return &verdict{"proxy-not-accepting", err.Error()}
+	}
+	defer cl.Close()
+	if r, err := cl.Do(10*time.Second, "PING"); err != nil || !ref.Equal(r, ref.SimpleV("PONG")) {
+		return &verdict{"proxy-wedged", fmt.Sprintf("after CLUSTER NODES text %q a fresh connection's PING was answered %s (%v)", clipS(text), r, err)}
+	}
+	// the genuine table is served again: within a few refreshes requests work
+	deadline := time.Now().Add(10 * time.Second)
+	for {
+		r, err := cl.Do(10*time.Second, "SET", key1, "ok")
+		if err == nil && !r.IsErr() {
+			return nil
+		}
+		if time.Now().After(deadline) {
+			return &verdict{"healthy-backend-unusable", fmt.Sprintf("10s after the hostile CLUSTER NODES text %q was withdrawn SET still answers %s (%v)", clipS(text), r, err)}
+		}
+		time.Sleep(20 * time.Millisecond)
+	}
+}
+
+func TestHostileClusterNodes(t *testing.T) {
+	rapid.Check(t, func(t *rapid.T) {
+		var c cnCase
+		for i, n := 0, rapid.IntRange(1, 3).Draw(t, "edits"); i < n; i++ {
+			e := cnEdit{Line: rapid.IntRange(0, 3).Draw(t, "line")}
+			switch rapid.IntRange(0, 3).Draw(t, "what") {
+			case 0, 1: // a slot token
+				e.Field = rapid.IntRange(8, 10).Draw(t, "slotfield")
+				e.Value = rapid.SampledFrom([]string{"16383", "16384", "16385", "0-16384", "16384-16384", "-1", "0--1", "99999", "4294967296", "9223372036854775807",
+					"16000-100", "1-", "-", "[16384->-aaaa]", "5-5", "00", "0x10"}).Draw(t, "slot")
+			case 2: // the master field
+				e.Field = 3
+				e.Value = rapid.SampledFrom([]string{"-", "0000000000000000000000000000000000000009", "zzz", ""}).Draw(t, "master")
+			default: // the address
+				e.Field = 1
+				e.Value = rapid.SampledFrom([]string{"127.0.0.1:1@2", ":0", "nohost", "127.0.0.1", "127.0.0.1:99999999", "[::1]:1@1"}).Draw(t, "addr")
+			}
+			if e.Value == "" {
+				e.Value = "-"
+			}
+			c.Edits = append(c.Edits, e)
+		}
+		vh.CurrentCase(prop, "clusternodes-socket", c)
+		v := checkClusterNodesSocket(c)
+		vh.ClearCurrentCase()
+		if v != nil {
+			vh.Fail(t, vh.Failure{Property: prop, Part: "clusternodes-socket", Signature: v.sig, Message: v.msg, Case: c})
+		}
+		vh.Rec().Case("clusternodes-socket", true, vh.JSON(c))
+		vh.Rec().Sample("clusternodes-socket", true, func() interface{} { return c })
+	})
+}
+
+func init() {
+	vh.RegisterReplay("clusternodes-socket", func(t *testing.T, raw json.RawMessage) {
+		var c cnCase
+		json.Unmarshal(raw, &c)
+		if v := checkClusterNodesSocket(c); v != nil {
+			vh.Fail(t, vh.Failure{Property: prop, Part: "clusternodes-socket", Signature: v.sig, Message: v.msg, Case: c})
+		}
+	})
+}
